@@ -11,6 +11,8 @@ import (
 	ipldprime "github.com/ipld/go-ipld-prime"
 	"github.com/ipld/go-ipld-prime/codec/dagcbor"
 	"github.com/ipld/go-ipld-prime/datamodel"
+	"github.com/ipld/go-ipld-prime/fluent/qp"
+	"github.com/ipld/go-ipld-prime/schema"
 	cidlink "github.com/ipld/go-ipld-prime/linking/cid"
 	"github.com/ipld/go-ipld-prime/node/basicnode"
 	"github.com/storacha/go-ucanto/core/dag/blockstore"
@@ -99,6 +101,30 @@ func nodeEqual(a, b datamodel.Node) bool {
 	x, err1 := ipldprime.Encode(a, dagcbor.Encode)
 	y, err2 := ipldprime.Encode(b, dagcbor.Encode)
 	return err1 == nil && err2 == nil && string(x) == string(y)
+}
+
+type c10Typed struct {
+	N int64
+	S string
+}
+
+var c10TypeSys = func() *schema.TypeSystem {
+	ts, err := ipldprime.LoadSchemaBytes([]byte("type OkRes struct {\n  n Int\n  s String\n}\ntype ErrRes struct {\n  n Int\n  s String\n}\n"))
+	if err != nil {
+		panic(err)
+	}
+	return ts
+}()
+
+// what every view of a receipt offers, whatever its result types
+type rcptCommon interface {
+	ipld.View
+	Ran() invocation.Invocation
+	Fx() fx.Effects
+	Meta() map[string]any
+	Issuer() ucan.Principal
+	Proofs() delegation.Proofs
+	Signature() signature.SignatureView
 }
 
 type rcptAlter struct {
@@ -193,6 +219,7 @@ func init() {
 		shapeHist := map[string]int{}
 		var samples []any
 		nverify := 0
+		nrebind := 0
 		for i := 0; i < n; i++ {
 			sg := signers[i%len(signers)]
 			user := cast.Ed(fmt.Sprintf("user%d", i%5))
@@ -204,6 +231,14 @@ func init() {
 			val, _ := randNode(r, 3, cst)
 			if nodeHasFloat(val) || val.Kind() == datamodel.Kind_Null {
 				val = basicnode.NewString("value")
+			}
+			typed := i%4 == 0
+			if typed {
+				// a result with a fixed shape, read back into Go structs with Rebind
+				val, _ = qp.BuildMap(basicnode.Prototype.Any, 2, func(ma datamodel.MapAssembler) {
+					qp.MapEntry(ma, "n", qp.Int(int64(i)))
+					qp.MapEntry(ma, "s", qp.String("typed"))
+				})
 			}
 			isOk := r.Intn(3) != 0
 			var res result.Result[nodeB, nodeB]
@@ -352,17 +387,15 @@ func init() {
 					direct = append(direct, map[string]any{"receipt": i, "shape": shape, "alteration": "sig-flip", "what": "altered signature verifies"})
 				}
 			}
-			// read back through the library's readers
-			rd, err := receipt.NewReceipt[ipld.Node, ipld.Node](rl, br, rdm.TypeSystem().TypeByName("Receipt"))
-			if err != nil {
-				direct = append(direct, map[string]any{"receipt": i, "shape": shape, "what": "NewReceipt failed after transport: " + err.Error()})
-			} else {
-				var bad []string
-				gotOk, gotVal := false, datamodel.Node(nil)
-				result.MatchResultR0(rd.Out(), func(v ipld.Node) { gotOk, gotVal = true, v }, func(v ipld.Node) { gotOk, gotVal = false, v })
-				if gotOk != isOk || !nodeEqual(gotVal, val) {
-					bad = append(bad, "out")
+			// read back through the library's readers: NewReceipt (untyped), ReceiptReader.Read, Rebind to typed results
+			wantBlocks := map[string]bool{}
+			for b, err := range rc.Blocks() {
+				if err == nil {
+					wantBlocks[b.Link().String()] = true
 				}
+			}
+			common := func(how string, rd rcptCommon) {
+				var bad []string
 				fxs := rd.Fx()
 				if len(fxs.Fork()) != nfork {
 					bad = append(bad, "fork-count")
@@ -407,8 +440,59 @@ func init() {
 				if string(rd.Signature().Bytes()) != string(rm.Sig) {
 					bad = append(bad, "signature")
 				}
+				if rd.Root().Link().String() != rc.Root().Link().String() {
+					bad = append(bad, "root")
+				}
+				got := map[string]bool{}
+				for b, err := range rd.Blocks() {
+					if err == nil {
+						got[b.Link().String()] = true
+					}
+				}
+				for l := range wantBlocks {
+					if !got[l] {
+						bad = append(bad, "blocks-lost")
+						break
+					}
+				}
 				if len(bad) > 0 {
-					direct = append(direct, map[string]any{"receipt": i, "shape": shape, "what": "read-back differs from what was issued: " + strings.Join(bad, ",")})
+					direct = append(direct, map[string]any{"receipt": i, "shape": shape, "reader": how, "what": how + ": read-back differs from what was issued: " + strings.Join(bad, ",")})
+				}
+			}
+			outAny := func(how string, rd receipt.AnyReceipt) {
+				gotOk, gotVal := false, datamodel.Node(nil)
+				result.MatchResultR0(rd.Out(), func(v ipld.Node) { gotOk, gotVal = true, v }, func(v ipld.Node) { gotOk, gotVal = false, v })
+				if gotOk != isOk || !nodeEqual(gotVal, val) {
+					direct = append(direct, map[string]any{"receipt": i, "shape": shape, "reader": how, "what": how + ": read-back differs from what was issued: out"})
+				}
+			}
+			rd, err := receipt.NewReceipt[ipld.Node, ipld.Node](rl, br, rdm.TypeSystem().TypeByName("Receipt"))
+			if err != nil {
+				direct = append(direct, map[string]any{"receipt": i, "shape": shape, "what": "NewReceipt failed after transport: " + err.Error()})
+			} else {
+				common("NewReceipt", rd)
+				outAny("NewReceipt", rd)
+				if rr, err := receipt.NewReceiptReader[ipld.Node, ipld.Node]([]byte("type Result struct {\n  ok optional Any\n  err optional Any (rename \"error\")\n}\n")); err == nil {
+					if rd2, err := rr.Read(rl, dmsg.Blocks()); err != nil {
+						direct = append(direct, map[string]any{"receipt": i, "shape": shape, "what": "ReceiptReader.Read failed after transport: " + err.Error()})
+					} else {
+						common("ReceiptReader.Read", rd2)
+						outAny("ReceiptReader.Read", rd2)
+					}
+				}
+				if typed {
+					rb, err := receipt.Rebind[c10Typed, c10Typed](rd, c10TypeSys.TypeByName("OkRes"), c10TypeSys.TypeByName("ErrRes"))
+					if err != nil {
+						direct = append(direct, map[string]any{"receipt": i, "shape": shape, "what": "Rebind failed after transport: " + err.Error()})
+					} else {
+						nrebind++
+						common("Rebind", rb)
+						gotOk, gotVal := false, c10Typed{}
+						result.MatchResultR0(rb.Out(), func(v c10Typed) { gotOk, gotVal = true, v }, func(v c10Typed) { gotOk, gotVal = false, v })
+						if gotOk != isOk || gotVal.N != int64(i) || gotVal.S != "typed" {
+							direct = append(direct, map[string]any{"receipt": i, "shape": shape, "reader": "Rebind", "what": "Rebind: read-back differs from what was issued: out"})
+						}
+					}
 				}
 			}
 			rt, err := rcptCoqFromBytes(rootBlk.Bytes())
@@ -442,6 +526,6 @@ func init() {
 			}
 		}
 		return writeJSON(o.out, "stats.json", map[string]any{"receipts": n, "verify_calls": nverify, "alteration_histogram": altHist,
-			"distinct_shapes": len(shapeHist), "direct_violations": direct, "samples": samples, "byte_cases": len(cases)})
+			"distinct_shapes": len(shapeHist), "rebinds": nrebind, "direct_violations": direct, "samples": samples, "byte_cases": len(cases)})
 	}
 }
